@@ -213,7 +213,16 @@ func c08Prepare(c *Ctx, prop string) *c08Plan {
 }
 
 func c08SimConfig(c *Ctx) simrt.Config {
-	c08Prepare(c, "C08")
+	pl := c08Prepare(c, "C08")
+	if pl.Mode == "random" && c.Draw("pol", 4) == 3 {
+		// swarm profile for the interplay of the foreground with the store's write goroutine:
+		// blocks full of asset transactions (the writer appends asset index records to the
+		// write-ahead file itself) under fine-grained preemption
+		c.Keep["profile"] = "asset-race"
+		cfg := simrt.Config{Policy: simrt.PolicyRandom, MeanGap: []int{40, 150, 600}[c.Draw("pol", 3)], MaxSteps: 400_000_000}
+		c.Keep["policy"] = fmt.Sprintf("%s/%d", cfg.Policy, cfg.MeanGap)
+		return cfg
+	}
 	return c08Policy(c)
 }
 
@@ -264,17 +273,42 @@ type recoveryCrash struct {
 	Variant int
 }
 
-func (x *c08Run) fail(clause, site, format string, args ...interface{}) {
+// fail reports a violation. The signature names the violated clause and, where there is one,
+// the failing component (class: panic function, error class, rejection reason, part of a read)
+// plus "first-start" when the crash hit the very first start of the node. The I/O site of the
+// crash is part of the message (story) only: more budget must not mint new signatures for
+// one root cause.
+func (x *c08Run) fail(clause, class, format string, args ...interface{}) {
 	if x.probeOnly {
 		x.c.Probe("powerloss_violation/" + clause)
 		x.probeFailed = true
 		return
 	}
 	sig := x.c.Prop + "/" + clause
-	if site != "" {
-		sig += "/" + site
+	if class != "" {
+		sig += "/" + class
 	}
-	x.c.Fail(sig, format, args...)
+	if len(x.crashes) > 0 && x.crashes[0].Phase == "init" {
+		sig += "/first-start"
+	}
+	x.c.Fail(sig, "[fault site: %s] "+format, append([]interface{}{x.siteNote()}, args...)...)
+}
+
+func (x *c08Run) siteNote() string {
+	if x.site == "" {
+		return "none"
+	}
+	return x.site
+}
+
+// errorClass turns an error text into a short stable class name.
+func errorClass(msg string) string {
+	msg = strings.TrimPrefix(msg, "new block chain failed: ")
+	w := strings.Fields(msg)
+	if len(w) > 5 {
+		w = w[:5]
+	}
+	return sanitize(strings.Join(w, "-"))
 }
 
 // story describes the history of the run for violation messages.
@@ -322,6 +356,9 @@ func c08Build(c *Ctx, enum bool) *c08Workload {
 	maxBlocks := 8
 	if c.Tier == "quick" && enum {
 		maxBlocks = 4
+	}
+	if c.Keep["profile"] == "asset-race" {
+		return c08BuildWorkload(c, 6, 6, []int{kCreateAsset, kCreateAsset, kIssueAsset, kIssueAsset, kTransferAsset, kTransfer}, false)
 	}
 	return c08BuildWorkload(c, maxBlocks, 5, nil, false)
 }
@@ -535,9 +572,6 @@ func (x *c08Run) runBatch(lo, hi int) bool {
 			clause = "diverges-after-restart/panic"
 		}
 		site := panicSite(ps[0].Stack)
-		if x.restarted {
-			site = x.restartKind() + "/" + site
-		}
 		x.fail(clause, site, "panic in a task of the node while the twin handled the same input without one: %s; %s\n%s", ps[0].Value, x.story(), trimStack(ps[0].Stack))
 		return false
 	}
@@ -548,11 +582,7 @@ func (x *c08Run) runBatch(lo, hi int) bool {
 			if x.restarted {
 				clause = "diverges-after-restart/op-did-not-return"
 			}
-			site := ""
-			if x.restarted {
-				site = x.restartKind()
-			}
-			x.fail(clause, site, "op %d %s did not return on the node (it did on the twin); %s", i, w.Ops[i], x.story())
+			x.fail(clause, "", "op %d %s did not return on the node (it did on the twin); %s", i, w.Ops[i], x.story())
 			return false
 		}
 		if !x.compare(i, res[i-lo]) {
@@ -603,7 +633,7 @@ func (x *c08Run) compare(i int, r c08Res) bool {
 		case "verdict":
 			what = "verdict-" + classifyRejection(strings.Split(detail, " | "))
 		}
-		x.fail("diverges-after-restart/"+what, x.restartKind(), "after the restart op %d %s gives a different %s than on the never-stopped twin: %s; restart was on stable %d; %s", i, x.w.Ops[i], what, detail, x.restartStable, x.story())
+		x.fail("diverges-after-restart/"+what, "", "(%s) after the restart op %d %s gives a different %s than on the never-stopped twin: %s; restart was on stable %d; %s", x.restartKind(), i, x.w.Ops[i], what, detail, x.restartStable, x.story())
 	} else {
 		x.inflightOp = i
 		x.fail("nocrash-differs/"+what, "", "without any fault op %d %s gives a different %s on the node than on its twin: %s; %s", i, x.w.Ops[i], what, detail, x.story())
@@ -668,17 +698,16 @@ func (x *c08Run) decideFaults() {
 }
 
 func (x *c08Run) reopenFailed(pv interface{}, ps string) {
-	site := x.site
 	if pv == nil {
-		x.fail("reopen-hang", site, "the restart did not finish (no panic; a task is blocked); %s", x.story())
+		x.fail("reopen-hang", "", "the restart did not finish (no panic; a task is blocked); %s", x.story())
 		return
 	}
 	msg := fmt.Sprint(pv)
 	if strings.HasPrefix(msg, "new block chain failed") || strings.HasPrefix(msg, "can't get genesis block") {
-		x.fail("reopen-error", site, "the node does not come up again: %s; node log: %s; %s", msg, strings.Join(takeErrors(x.nut.Tag), " | "), x.story())
+		x.fail("reopen-error", errorClass(msg), "the node does not come up again: %s; node log: %s; %s", msg, strings.Join(takeErrors(x.nut.Tag), " | "), x.story())
 		return
 	}
-	x.fail("reopen-panic", site+"/"+panicSite(ps), "reopening the data directory panics: %s; %s\n%s", msg, x.story(), trimStack(ps))
+	x.fail("reopen-panic", panicSite(ps), "reopening the data directory panics: %s; %s\n%s", msg, x.story(), trimStack(ps))
 }
 
 // afterCrash cleans up after the kill, restarts (with the planned crashes during recovery),
@@ -721,7 +750,7 @@ func (x *c08Run) afterCrash(f *firedCrash, inflight int) bool {
 			return false
 		}
 		if ps := x.newPanics(x.nut.Tag); len(ps) > 0 {
-			x.fail("reopen-panic", x.site+"/"+panicSite(ps[0].Stack), "a background task of the restarted node panics: %s; %s\n%s", ps[0].Value, x.story(), trimStack(ps[0].Stack))
+			x.fail("reopen-panic", panicSite(ps[0].Stack), "a background task of the restarted node panics: %s; %s\n%s", ps[0].Value, x.story(), trimStack(ps[0].Stack))
 			return false
 		}
 		break
@@ -771,7 +800,7 @@ func (x *c08Run) refeed(inflight int) bool {
 		if len(ps) > 0 {
 			msg, stack = ps[0].Value, ps[0].Stack
 		}
-		x.fail("diverges-after-restart/refeed-panic", x.restartKind(), "re-feeding the forgotten blocks to the restarted node fails: %s; %s\n%s", msg, x.story(), trimStack(stack))
+		x.fail("diverges-after-restart/refeed-panic", "", "re-feeding the forgotten blocks to the restarted node fails: %s; %s\n%s", msg, x.story(), trimStack(stack))
 		return false
 	}
 	if last.StableH > x.completedH {
@@ -779,12 +808,12 @@ func (x *c08Run) refeed(inflight int) bool {
 	}
 	t := x.tw[inflight]
 	if last.StableH != t.StableH || last.Stable != t.Stable {
-		x.fail("diverges-after-restart/refeed-stable", x.restartKind(), "after re-feeding inputs 1..%d the restarted node is at stable %d/%s, the twin at %d/%s (restart was on stable %d); node log: %s; %s",
+		x.fail("diverges-after-restart/refeed-stable", "", "after re-feeding inputs 1..%d the restarted node is at stable %d/%s, the twin at %d/%s (restart was on stable %d); node log: %s; %s",
 			inflight, last.StableH, last.Stable.Hex()[:10], t.StableH, t.Stable.Hex()[:10], x.restartStable, strings.Join(takeErrors(x.nut.Tag), " | "), x.story())
 		return false
 	}
 	if w.Linear && (last.HeadH != t.HeadH || last.Head != t.Head) {
-		x.fail("diverges-after-restart/refeed-head", x.restartKind(), "after re-feeding inputs 1..%d the restarted node's head is %d/%s, the twin's %d/%s; node log: %s; %s",
+		x.fail("diverges-after-restart/refeed-head", "", "after re-feeding inputs 1..%d the restarted node's head is %d/%s, the twin's %d/%s; node log: %s; %s",
 			inflight, last.HeadH, last.Head.Hex()[:10], t.HeadH, t.Head.Hex()[:10], strings.Join(takeErrors(x.nut.Tag), " | "), x.story())
 		return false
 	}
